@@ -37,6 +37,7 @@ OF THIS SOFTWARE, EVEN IF ADVISED OF THE POSSIBILITY OF SUCH DAMAGE.
 #include "intrin_portable.h"
 #include "reciprocal.h"
 #include "soft_aes.h"
+#include "verif_hooks.h"
 
 namespace randomx {
 
@@ -125,6 +126,7 @@ namespace randomx {
 
 			spAddr0 = 0;
 			spAddr1 = 0;
+			RANDOMX_VERIF_YIELD(RANDOMX_VERIF_SITE_INTERP_ITER);
 		}
 
 		for (unsigned i = 0; i < RegistersCount; ++i)
